@@ -19,7 +19,7 @@ func init() {
 		Category: "model_checking",
 		Rule: "streams: ~35 short valid streams (every code shape, block type and transition) whole and cut at EVERY byte, plus long encoder-made streams whole and cut at a ladder; " +
 			"environment: bufio sizes {16,17,32,64,327,328,329,512,4095,4096,4097,65536,1<<20} x delivery {full, 1,2,3,5,8,13,4096 bytes per call} x EOF {separate, with the last data} with the all-at-once Read policy, " +
-			"and 12 Read-size policies x bufio {16,4096}; deviations: at ANY source call a short read of r bytes, r in {1,2,7,8,9,23,24,25,327,328,329}, up to the deviation bound (1 quick, 2 thorough); " +
+			"and 12 Read-size policies x bufio {none,16,4096} (thorough: x all 13 bufio sizes x delivery {one call, 1, 13}); deviations: at ANY source call a short read of r bytes, r in {1,2,7,8,9,23,24,25,327,328,329}, up to the deviation bound (1 quick, 2 thorough); " +
 			"window-fill family: streams whose literals, packed literal+length entries and copies straddle the point where the decoder's 64 KiB output window is full, delivered bytewise (plain and through a 16-byte bufio) and in EVERY two-piece split within [-8,+72) bytes of that point; " +
 			"oracle: output bytes and final error identical to the all-at-once run; non-trivial = the run differs from the all-at-once run in at least one environment dimension",
 		Assumptions: []string{"the all-at-once run (plain source delivering everything in one call, one large Read) is the reference"},
@@ -179,7 +179,17 @@ func c04Harness(cfg *Cfg) func(x *mc.Exec) {
 			}
 		case 1: // read policies
 			pol = allReadPolicies[x.Choose(len(allReadPolicies), "read-policy")]
-			spec.Bufio = []int{0, 16, 4096}[x.Choose(3, "bufio")]
+			if cfg.Thorough {
+				// thorough: full product Read policy x bufio size x delivery {one call, 1, 13}
+				bs := append([]int{0}, bufioSizes...)
+				spec.Bufio = bs[x.Choose(len(bs), "bufio")]
+				spec.Chunk = []int{0, 1, 13}[x.Choose(3, "chunk")]
+				if cs.long && spec.Chunk == 1 && spec.Bufio > 64 {
+					return
+				}
+			} else {
+				spec.Bufio = []int{0, 16, 4096}[x.Choose(3, "bufio")]
+			}
 			if cs.long && len(pol.Sizes) == 1 && pol.Sizes[0] < 7 {
 				return
 			}
